@@ -29,7 +29,7 @@ package limiter
 // zero key. Nothing else of the address reaches the key.
 //@ func (cl *ClientLimiter) mask(addr netip.Addr) (r netip.Addr)
 //@   props C15
-//@   requires cl != nil && masksOK(cl) && wfAddr(addr)
+//@   requires cl != nil && masksOK(cl)
 //@   modifies nothing
 //@   ensures [C15:invalid-zero-key] !isValidAddr(addr) ==> r.z == netip.z0 && r.addr.hi == 0 && r.addr.lo == 0
 //@   ensures [C15:v4-subnet] is4(addr) || isMapped(addr) ==> r.z == netip.z4 && r.addr.hi == 0
@@ -41,7 +41,7 @@ package limiter
 // while holding that entry's lock, after stamping it as seen now (the gc drops entries not seen for a minute).
 //@ func (cl *ClientLimiter) AllowN(addr netip.Addr, now time.Time, n int) (ok bool)
 //@   props C15
-//@   requires cl != nil && cl.m != nil && masksOK(cl) && wfAddr(addr)
+//@   requires cl != nil && cl.m != nil && masksOK(cl)
 //@   ghost ge *e = nil
 //@   ghost gk netip.Addr = addr
 //@   ghost gv bool = false
@@ -54,7 +54,7 @@ package limiter
 //@   oncall Unlock: held = false
 //@   oncall AllowN: nAllow = nAllow + 1
 //@   aftercall AllowN: gv = ret0
-//@   modifies *
+//@   modifies field(limiter.e), field(time.Time)
 //@   ensures [C15:verdict-is-the-buckets] nAllow == 1 && ok == gv && !held
 //@   callsite mask: [C15:key-from-client-address] arg1 == addr
 //@   callsite LoadOrCompute: [C15:bucket-per-masked-subnet] arg1 == gk
